@@ -188,13 +188,21 @@ where
     K: Hash + Eq,
     DFN: FnMut(I::Item, &I::Item),
 {
-    let mut candidates: HashMap<_, Vec<_>> = HashMap::new();
+    // Groups are kept in the order of their first element, such that duplicates are reported in a
+    // deterministic order.
+    let mut indices = HashMap::new();
+    let mut groups: Vec<Vec<_>> = Vec::new();
 
     for elem in iter {
-        candidates.entry(key_fn(&elem)).or_default().push(elem);
+        let idx = *indices.entry(key_fn(&elem)).or_insert_with(|| {
+            groups.push(Vec::new());
+            groups.len() - 1
+        });
+
+        groups[idx].push(elem);
     }
 
-    for (_, candidates) in candidates {
+    for candidates in groups {
         if candidates.len() <= 1 {
             continue;
         }
